@@ -7,6 +7,7 @@ return; settle; then compare the broker state with the lifecycle model.
 from __future__ import annotations
 
 import asyncio
+import re
 
 from ..explore import Acc, digest
 from ..harness import BASIC, SIGTERM, Exec, actor_log, actor_runs
@@ -192,6 +193,152 @@ def execute(scn, k=None, deviations=None, slip=None):
     return res
 
 
+CRASH_TIMEOUT = 3.0
+
+
+def execute_crash(scn, k):
+    """Process death at iteration k (Redis): the worker's client stops talking, the server finishes
+    what it had received.  A fresh client then runs maintenance before and after the execution
+    timeout; in-flight messages must come back exactly once, and only after the timeout."""
+    from ..env import fake_redis
+    from repid.message import MessageCategory
+
+    dur, fails, recurring = ACTORS[scn["actor"]]
+    x = Exec("redis", buckets="results" if scn["actor"] == "result" else None)
+    w = x.world
+    loop = x.loop
+    res = dict(viol=[], obs=None)
+    try:
+        n = scn["load"]
+        worker = x.worker(graceful_shutdown_time=1.0, tasks_limit=2 if n == 3 else 1000)
+        done = {}
+
+        async def job(i: int):
+            mid = f"m{i}"
+            actor_log(w, mid, "start")
+            await asyncio.sleep(min(dur, 0.05))
+            if fails:
+                actor_log(w, mid, "fail")
+                raise ValueError("boom")
+            actor_log(w, mid, "ok")
+            return i
+
+        worker.actor(job, name="job", queue="q", converter=BASIC,
+                     retry_policy=lambda retry_number=1: __import__("datetime").timedelta(seconds=60))
+
+        async def setup():
+            await w.connect()
+            await w.broker.queue_declare("q")
+            for i in range(n):
+                p = w.params(retries=1 if scn["actor"] == "fail_retry" else 0, timeout=CRASH_TIMEOUT,
+                             result=f"r{i}" if scn["actor"] == "result" else None)
+                await w.broker.enqueue(w.key(f"m{i}", "job", "q", 9), f'{{"i":{i}}}', p)
+
+        x.run(setup())
+        x.mark()
+        run_task = asyncio.ensure_future(worker.run(), loop=loop)
+        crashed = [False]
+
+        def crash():
+            crashed[0] = True
+            clients = [b.conn for b in w.brokers]
+            for bb in (w.conn.results_bucket_broker, w.conn.args_bucket_broker):
+                if bb is not None:
+                    clients.append(bb.conn)
+            w.server.kill_clients(clients)
+
+        x.at_iteration(k, crash)
+        from ..vloop import Deadlock
+        while not crashed[0] and not run_task.done():
+            try:
+                loop.step()
+            except Deadlock:
+                break  # the dead process has nothing left to run
+        t_crash = loop._ns
+        res["iters"] = x.rel_iter
+        takes = {}  # id -> ns of the take (processing mark), from the server command log
+        for ns, client, label, st in w.server.cmdlog:
+            if label.startswith("MULTI[lrem:") or label.startswith("MULTI[zrem:q:"):
+                m = re.search(r"hset:m:q:\d+:job:(m\d+)", label)
+                if m:
+                    takes[m.group(1)] = ns
+        obs0 = w.observe()
+        # state right after the crash: every message in exactly one place
+        runs = {f"m{i}": actor_runs(x.log, f"m{i}") for i in range(n)}
+        for i in range(n):
+            mid = f"m{i}"
+            ents = obs0.get(mid, [])
+            okrun = any(r[2] == "ok" for r in runs[mid])
+            failrun = any(r[2] == "fail" for r in runs[mid])
+            if len(ents) > 1:
+                res["viol"].append(("crash-duplicated", f"right after the crash {mid} is in {[e['place'] for e in ents]}"))
+            if not ents and not okrun:
+                res["viol"].append(("crash-lost", f"right after the crash {mid} is nowhere although it never completed"))
+        if obs0.get("__orphans__"):
+            res["viol"].append(("crash-ghost", f"right after the crash: {obs0['__orphans__']}"))
+        held0 = sorted(mid for mid, ents in obs0.items() if not mid.startswith("__") and any(e["place"] == "held" for e in ents))
+        # recovery client 1: maintenance before the timeout must not release anything in flight
+        rec = fake_redis.make_broker(w.server, "recovery")
+        early_by = CRASH_TIMEOUT - 1.05
+        first_take = min([takes[m] for m in held0 if m in takes], default=None)
+        if first_take is not None and t_crash + round(0.01 * NS) < first_take + round(early_by * NS):
+            target = first_take + round(early_by * NS)
+            loop.run_for((target - loop._ns) / NS)
+            x.run(rec.connect())
+            obs1 = w.observe()
+            for mid in held0:
+                if mid in takes and takes[mid] <= first_take + round(0.04 * NS):
+                    places = [e["place"] for e in obs1.get(mid, [])]
+                    if places != ["held"]:
+                        res["viol"].append(("recovered-too-early", f"{mid} was taken {(loop._ns - takes[mid]) / NS:.2f}s ago "
+                                                                   f"(execution timeout {CRASH_TIMEOUT}s) but maintenance already moved it to {places}"))
+        # recovery client 2: after the timeout maintenance must make it deliverable, exactly once
+        last_take = max([takes[m] for m in held0 if m in takes], default=t_crash)
+        target = max(loop._ns, last_take + round((CRASH_TIMEOUT + 1.05) * NS))
+        loop.run_for((target - loop._ns) / NS)
+        x.run(rec.maintenance())
+        x.run(rec.maintenance())  # running it again must not duplicate anything
+        obs2 = w.observe()
+        for mid in held0:
+            ents = obs2.get(mid, [])
+            places = [e["place"] for e in ents]
+            if places not in (["waiting"], ["delayed"]):
+                res["viol"].append(("not-recovered", f"{mid} was in flight when the worker died; after its execution timeout and "
+                                                     f"maintenance it is in {places}"))
+        if obs2.get("__orphans__"):
+            res["viol"].append(("crash-ghost", f"after recovery: {obs2['__orphans__']}"))
+        for mid, ents in obs2.items():
+            if not mid.startswith("__") and len(ents) > 1:
+                res["viol"].append(("crash-duplicated", f"after recovery {mid} is in {[e['place'] for e in ents]}"))
+        # a fresh consumer receives every recovered message exactly once
+        got = []
+        c = rec.get_consumer("q", None, None, MessageCategory.NORMAL)
+
+        async def drain():
+            await c.start()
+            try:
+                while True:
+                    key, _, _ = await asyncio.wait_for(c.consume(), 1.5)
+                    got.append(key.id_)
+            except asyncio.TimeoutError:
+                pass
+            await c.finish()
+
+        x.run(drain(), max_iters=300_000)
+        waiting2 = sorted(mid for mid, ents in obs2.items() if not mid.startswith("__") and [e["place"] for e in ents] == ["waiting"])
+        if sorted(got) != waiting2:
+            res["viol"].append(("redelivery", f"messages waiting after recovery {waiting2}, a fresh consumer received {sorted(got)}"))
+        res["obs"] = dict(held_at_crash=held0, after={m: [e["place"] for e in v] for m, v in obs2.items() if not m.startswith("__")},
+                          redelivered=sorted(got))
+        res["phase"] = "crash:" + phase_of(x.log, len(x.log))
+        res["handles"] = loop.handles
+        res["points"] = []
+        res["stop_ns"] = t_crash
+    finally:
+        x.close()
+    return res
+
+
 def phase_of(log, idx):
     """What the worker was doing when the stop arrived (idx = length of the spy log then)."""
     if idx is None:
@@ -228,6 +375,14 @@ def jobs(tier):
         chunk = 12
         for lo in range(0, nk, chunk):
             out.append(dict(scn=scn, ks=list(range(lo, min(lo + chunk, nk))), slips=True))
+    # process death (Redis keeps the in-flight state outside the process)
+    for actor in ("short", "long", "fail_retry", "fail_nack", "result"):
+        for load in (1, 3):
+            scn = dict(kind="redis", g=1.0, actor=actor, load=load, stop="crash")
+            base = execute(dict(scn, stop="signal"), None)
+            nk = base["iters"]
+            for lo in range(0, nk, 25):
+                out.append(dict(scn=scn, ks=list(range(lo, min(lo + 25, nk)))))
     return out
 
 
@@ -247,7 +402,10 @@ def run_job(job):
     if job.get("one"):
         todo = [tuple(job["one"])]
     for k, slip in todo:
-        r = execute(scn, k, job.get("dev"), slip)
+        if scn.get("stop") == "crash":
+            r = execute_crash(scn, k)
+        else:
+            r = execute(scn, k, job.get("dev"), slip)
         if slip is not None and not r.get("slipped"):
             acc.extra["slip_not_applicable"] += 1
             continue
